@@ -9,6 +9,7 @@ CONSTANTS
   WaitData = 0
   SockT = 0
   V6 = FALSE
+  LateDrop = FALSE
   KF = {}
   Cmds <- c_CmdsS
   Datas = {}
